@@ -1,6 +1,6 @@
 SPECIFICATION Spec
 CONSTANT MaxLayers = 2
-CONSTANT MaxObjects = 2
+CONSTANT MaxObjects = 1
 INVARIANT ReadsBackWritten
 INVARIANT Formed
 INVARIANT Disjoint
